@@ -26,6 +26,7 @@ type c03Mode struct {
 	Suite   uint16 `json:"suite"`
 	Auth    bool   `json:"auth"`
 	Resumed bool   `json:"resumed"`
+	PMTU    int    `json:"pmtu,omitempty"` // datagram stack: path MTU of both ends (small: the flights are fragmented)
 }
 
 type c03Params struct {
@@ -39,7 +40,7 @@ type c03Params struct {
 func (c03) ID() string    { return "C03" }
 func (c03) Level() string { return "fault_enumeration" }
 func (c03) Rule() string {
-	return "a man in the middle between two real endpoints applies one fault to the handshake: XOR with 0x01 / 0x80 / 0xFF at a byte position of a record (quick: a stratified sample of positions of every record, thorough: every position), drop, duplicate, swap with the next, truncate, or inject a record of any content type before any record (stream stack); corrupt at a position, drop, duplicate, delay or truncate a datagram (datagram stack, under virtual time so that retransmission can repair); plus seeded multi-fault plans (thorough); full and resumed handshakes, four suites, with and without client authentication. An untampered run with the same seeds is the baseline. Oracle: no task panics, and it is never the case that both endpoints complete unless version, suite, ALPN, resumption flag and session id equal the baseline's, the Finished values both sides recorded agree, (stream stack) the handshake and ChangeCipherSpec payloads delivered to each endpoint are byte for byte what the other sent - also tried with hellos re-encoded to the same fields (unknown extension appended, extensions exchanged, bytes behind the extensions) - and (datagram stack) no completion without a timer expiry when a payload byte of a handshake or ChangeCipherSpec record (hellos of the cookie exchange excepted: they are re-sent on a fresh HelloVerifyRequest) was changed. distinct = distinct (mode, fault); non-trivial = the fault hit a record / datagram of the handshake"
+	return "a man in the middle between two real endpoints applies one fault to the handshake: XOR with 0x01 / 0x80 / 0xFF at a byte position of a record (quick: a stratified sample of positions of every record, thorough: every position), drop, duplicate, swap with the next, truncate, or inject a record of any content type before any record (stream stack); corrupt at a position, drop, duplicate, delay or truncate a datagram (datagram stack, under virtual time so that retransmission can repair); plus seeded multi-fault plans (thorough); full and resumed handshakes, four suites, with and without client authentication, and one datagram mode with a path MTU of 400 (fragmented flights; the bytes of every fragment header are always among the positions tried). An untampered run with the same seeds is the baseline. Oracle: no task panics, and it is never the case that both endpoints complete unless version, suite, ALPN, resumption flag and session id equal the baseline's, the Finished values both sides recorded agree, (stream stack) the handshake and ChangeCipherSpec payloads delivered to each endpoint are byte for byte what the other sent - also tried with hellos re-encoded to the same fields (unknown extension appended, extensions exchanged, bytes behind the extensions) - and (datagram stack) no completion without a timer expiry when a payload byte of a handshake or ChangeCipherSpec record (hellos of the cookie exchange excepted: they are re-sent on a fresh HelloVerifyRequest; headers of proper fragments excepted: they are framing) was changed. distinct = distinct (mode, fault); non-trivial = the fault hit a record / datagram of the handshake"
 }
 func (c03) Components() (real, stub []string) {
 	return []string{"tlcp/dtlcp client+server (instrumented): transcript hashing, Finished, record layer, state machines, retransmission"},
@@ -50,9 +51,10 @@ func (c03) Assumptions() []string {
 }
 
 var c03Modes = []c03Mode{
-	{TLCP, ECC_GCM, false, false}, {TLCP, ECC_CBC, true, false}, {TLCP, ECDHE_GCM, true, false}, {TLCP, ECDHE_CBC, true, false},
-	{TLCP, ECC_GCM, false, true}, {TLCP, ECDHE_CBC, true, true},
-	{DTLCP, ECC_GCM, false, false}, {DTLCP, ECDHE_CBC, true, false}, {DTLCP, ECC_CBC, true, true},
+	{TLCP, ECC_GCM, false, false, 0}, {TLCP, ECC_CBC, true, false, 0}, {TLCP, ECDHE_GCM, true, false, 0}, {TLCP, ECDHE_CBC, true, false, 0},
+	{TLCP, ECC_GCM, false, true, 0}, {TLCP, ECDHE_CBC, true, true, 0},
+	{DTLCP, ECC_GCM, false, false, 0}, {DTLCP, ECDHE_CBC, true, false, 0}, {DTLCP, ECC_CBC, true, true, 0},
+	{DTLCP, ECC_GCM, false, false, 400},
 }
 
 var (
@@ -69,12 +71,19 @@ func c03Baseline(m c03Mode) ([2][]int, [2][][]byte) {
 	return res.lens, res.sentUnits
 }
 
-// c03CCSOffsets lists the offsets in a datagram that hold the payload of a ChangeCipherSpec record.
+// c03CCSOffsets lists the offsets in a datagram that are always tried: the payload of a ChangeCipherSpec record and
+// the twelve bytes of every unprotected handshake (fragment) header (type, total length, message_seq, fragment
+// offset, fragment length).
 func c03CCSOffsets(d []byte) (offs []int) {
 	for q := 0; q+13 <= len(d); {
 		n := int(d[q+11])<<8 | int(d[q+12])
 		if d[q] == 20 {
 			for i := 0; i < n; i++ {
+				offs = append(offs, q+13+i)
+			}
+		}
+		if d[q] == 22 && d[q+3] == 0 && d[q+4] == 0 {
+			for i := 0; i < 12 && i < n; i++ {
 				offs = append(offs, q+13+i)
 			}
 		}
@@ -192,8 +201,8 @@ type c03Out struct {
 
 // c03Execute runs the (possibly resumed) handshake with or without the faults.
 func c03Execute(c *Case, src *vs.Src, p *c03Params, r *Result, baseline bool) *c03Out {
-	cc := &EPConf{Suites: []uint16{p.Suite}, ServerName: "server.test", Cache: "c", ALPN: []string{"h2", "foo"}}
-	sc := &EPConf{Suites: []uint16{p.Suite}, Certs: []string{"server_sig", "server_enc"}, ClientCAs: []string{"ca1"}, Cache: "s", ALPN: []string{"foo"}}
+	cc := &EPConf{Suites: []uint16{p.Suite}, ServerName: "server.test", Cache: "c", ALPN: []string{"h2", "foo"}, PMTU: p.PMTU}
+	sc := &EPConf{Suites: []uint16{p.Suite}, Certs: []string{"server_sig", "server_enc"}, ClientCAs: []string{"ca1"}, Cache: "s", ALPN: []string{"foo"}, PMTU: p.PMTU}
 	if p.Auth || IsECDHE(p.Suite) {
 		cc.Certs = []string{"client_sig", "client_enc"}
 	}
@@ -398,7 +407,12 @@ func (c03) Run(c *Case, src *vs.Src) *Result {
 				// ClientHello and HelloVerifyRequest are exempt: a hello that the cookie check refuses is answered by a
 				// fresh HelloVerifyRequest and re-sent at once, without any timer
 				cookiePhase := d[q] == 22 && n > 0 && q+13 < len(d) && d[q+4] == 0 && (d[q+13] == 1 || d[q+13] == 3)
-				if (d[q] == 22 || d[q] == 20) && !cookiePhase && off >= q+13 && off < q+13+n {
+				// the header of a proper fragment (fragment length < message length) repeats what other fragments of
+				// the message say as well; which copy the receiver goes by is framing, like the record header: the
+				// reassembled message is what the transcript covers
+				fragHeader := d[q] == 22 && d[q+4] == 0 && n >= 12 && off < q+13+12 &&
+					(int(d[q+13+9])<<16|int(d[q+13+10])<<8|int(d[q+13+11])) < (int(d[q+13+1])<<16|int(d[q+13+2])<<8|int(d[q+13+3]))
+				if (d[q] == 22 || d[q] == 20) && !cookiePhase && !fragHeader && off >= q+13 && off < q+13+n {
 					r.Violate("tampered-accepted", sigp+" damaged-message-accepted-without-retransmission", "both endpoints completed without any timer expiring although byte %d of datagram %d in direction %d (payload of a record of type %d, epoch %d, %d bytes) was changed in transit (mask %#x): the damaged message was accepted", off, f.N, f.Dir, d[q], int(d[q+3])<<8|int(d[q+4]), n, f.Mask)
 					break
 				}
